@@ -21,10 +21,10 @@ type callSpec struct {
 	ID     int
 	Kind   string
 	Desc   string
-	Run    func() string   // executes the call, returns the normalised observable result
-	Inputs []interface{}   // every object handed to the library (values, rule maps), for mutation checks
-	Preds  []func()        // adversarial predecessors: calls that must not influence Run's result
-	Type   reflect.Type    // struct type involved, if any
+	Run    func() string // executes the call, returns the normalised observable result
+	Inputs []interface{} // every object handed to the library (values, rule maps), for mutation checks
+	Preds  []func()      // adversarial predecessors: calls that must not influence Run's result
+	Type   reflect.Type  // struct type involved, if any
 }
 
 // normErr: sorted clause list (the order of group clauses and of Go map entries is unspecified).
@@ -153,7 +153,9 @@ func (g *specGen) next() callSpec {
 					return valid.NestedStructForRule(nilT, map[interface{}]valid.RM{reflect.New(t).Interface(): otherRM, &C16Inner{}: {"Name": "eq=77|pred_nested"}, &C16Outer{}: {"Name": "eq=77|pred_nested_o"}})
 				})
 			},
-			func() { drive.Call(func() error { return valid.ValidStructForMyValidFn(nil, "required", markerFn("pred_required3")) }) },
+			func() {
+				drive.Call(func() error { return valid.ValidStructForMyValidFn(nil, "required", markerFn("pred_required3")) })
+			},
 			func() { drive.Call(func() error { return valid.Var("x", "to=5~9|pred_var,nosuch_pred") }) },
 		}
 	}
@@ -187,7 +189,9 @@ func (g *specGen) next() callSpec {
 			fns := valid.Name2FnMap{"l_mark": markerFn(mark), "phone": markerFn(mark + "_phone")}
 			s.Inputs = append(s.Inputs, rm)
 			s.Desc = fmt.Sprintf("StructForFns(v,%v,{l_mark,phone},%q)", rm, tag)
-			s.Run = func() string { return normErr(drive.Call(func() error { return valid.StructForFns(in, rm, fns, tag) })) }
+			s.Run = func() string {
+				return normErr(drive.Call(func() error { return valid.StructForFns(in, rm, fns, tag) }))
+			}
 		}
 	case "NestedStructForRule":
 		o := c16Outer(rng, 1)
@@ -263,12 +267,20 @@ func (g *specGen) next() callSpec {
 		in := m.Interface()
 		s.Inputs = []interface{}{in, rm}
 		s.Preds = []func(){
-			func() { drive.Call(func() error { return valid.Map(in, valid.RM{"k0": "eq=77|pred_eq", "zz": "required|pred_req"}) }) },
+			func() {
+				drive.Call(func() error { return valid.Map(in, valid.RM{"k0": "eq=77|pred_eq", "zz": "required|pred_req"}) })
+			},
 			func() { drive.Call(func() error { return valid.Map(5, rm) }) },
 			func() { drive.Call(func() error { return valid.Map(nil, valid.RM{"k0": "eq=77|pred_eq2"}) }) },
-			func() { drive.Call(func() error { return valid.MapFn(nil, valid.RM{"k0": "l_mark"}, valid.Name2FnMap{"l_mark": markerFn("pred_l_mark3")}) }) },
 			func() {
-				drive.Call(func() error { return valid.MapFn(in, rm, valid.Name2FnMap{"l_mark": markerFn("pred_l_mark"), "required": markerFn("pred_r")}) })
+				drive.Call(func() error {
+					return valid.MapFn(nil, valid.RM{"k0": "l_mark"}, valid.Name2FnMap{"l_mark": markerFn("pred_l_mark3")})
+				})
+			},
+			func() {
+				drive.Call(func() error {
+					return valid.MapFn(in, rm, valid.Name2FnMap{"l_mark": markerFn("pred_l_mark"), "required": markerFn("pred_r")})
+				})
 			},
 		}
 		if kind == "Map" {
@@ -295,10 +307,15 @@ func (g *specGen) next() callSpec {
 		u := "http://h.example/p?" + strings.Join(q, "&")
 		s.Inputs = []interface{}{u, rm}
 		s.Preds = []func(){
-			func() { drive.Call(func() error { return valid.Url(u, valid.RM{"k0": "eq=77|pred_eq", "zz": "required|pred_req"}) }) },
+			func() {
+				drive.Call(func() error { return valid.Url(u, valid.RM{"k0": "eq=77|pred_eq", "zz": "required|pred_req"}) })
+			},
 			func() { drive.Call(func() error { return valid.Url(5, rm) }) },
 			func() { drive.Call(func() error { return valid.Url(nil, valid.RM{"k0": "eq=77|pred_eq2"}) }) },
-			func() { var ns *string; drive.Call(func() error { return valid.Url(ns, valid.RM{"k0": "eq=77|pred_eq3"}) }) },
+			func() {
+				var ns *string
+				drive.Call(func() error { return valid.Url(ns, valid.RM{"k0": "eq=77|pred_eq3"}) })
+			},
 			func() { drive.Call(func() error { return valid.Url("http://x?a=%zz", rm) }) },
 		}
 		s.Desc = fmt.Sprintf("Url(%q,%v)", u, rm)
